@@ -7,7 +7,9 @@ declare -A PROPS=(
  [h1_1]="C01 C03 C13" [h1_2]="C16 C13 C09 C17" [h1_3]="C20" [h1_4]="C12 C17" [h1_5]="C14" [h1_6]="C15" [h1_7]="C15 C16" [h1_8]="C18"
  [h2_1]="C05 C06" [h2_2]="C05 C19" [h2_3]="C06" [h2_4]="C08 C02" [h2_5]="C09" [h2_6]="C09" [h2_7]="C09" [h2_8]="C10"
  [h3_1]="C02" [h3_2]="C02" [h3_3]="C01" [h3_4]="C03" [h3_5]="C09 C17" [h3_6]="C01 C03" [h3_7]="C03" [h3_8]="C13" [h3_9]="C17" [h3_10]="C11 C16"
- [mine_idioms]="C01 C02 C03"
+ [mine_idioms]="C01 C02 C03" [mine_rename_private]="C10 C20 C09 C18 C12 C17 C02"
+ [h5_1]="C05" [h5_2]="C06" [h5_3]="C05 C19" [h5_4]="C06" [h5_5]="C09" [h5_6]="C09 C19" [h5_7]="C19 C09" [h5_8]="C09" [h5_9]="C10" [h5_10]="C10"
+ [h6_1]="C20" [h6_2]="C20" [h6_3]="C18" [h6_4]="C18" [h6_5]="C15" [h6_6]="C15" [h6_7]="C16" [h6_8]="C15 C16" [h6_9]="C17" [h6_10]="C17 C14"
  [h4_1]="C14" [h4_2]="C14" [h4_3]="C15" [h4_4]="C15" [h4_5]="C15" [h4_6]="C15" [h4_7]="C20" [h4_8]="C20" [h4_9]="C08" [h4_10]="C09 C17"
 )
 names=${@:-$(ls harmless/*.diff | xargs -n1 basename | sed 's/\.diff$//')}
